@@ -1,14 +1,14 @@
 (* C03Run.v — C03 is decided on two harnesses: the cluster IPAM controller (IpamRun) and, for the node agent's
    side ("teardown is reported only for the pod whose DEL was processed"), the daemon's service harness (SvcRun);
-   the cases of the latter carry the marker 9. *)
+   the cases of the latter carry the marker 9; the cases of the teardown-report harness (RtRun) the marker 8. *)
 From Coq Require Import ZArith List Bool.
-From TV Require Import Codec IpamRun SvcRun.
+From TV Require Import Codec IpamRun SvcRun RtRun.
 Import ListNotations.
 Local Open Scope Z_scope.
 
 Definition run_c03 (l : list Z) : list Z :=
-  match l with 9 :: r => run_svc r | _ => run_ipam l end.
+  match l with 9 :: r => run_svc r | 8 :: r => run_rt r | _ => run_ipam l end.
 Definition chk_c03_all (l o : list Z) : bool :=
-  match l with 9 :: r => chk_c03d r o | _ => chk_c03 l o end.
+  match l with 9 :: r => chk_c03d r o | 8 :: r => chk_rt r o | _ => chk_c03 l o end.
 Definition why_c03 (l o : list Z) : Z :=
-  match l with 9 :: r => why_svc 3 r o | _ => why_ipam 3 l o end.
+  match l with 9 :: r => why_svc 3 r o | 8 :: r => why_rt r o * 100000 | _ => why_ipam 3 l o end.
